@@ -480,6 +480,6 @@ func TestC37(t *testing.T) {
 			"MAX_CAPACITY-0..3, 1..6 submissions (new / duplicate of pool / duplicate of pending / outsider) through the tx actor while gated validators "+
 			"hold their answers, then verification completes. non-trivial: (seq) a duplicate add was rejected and a get/unverified query met both valid and outdated "+
 			"entries; (conc) at least one pair of operations of different goroutines really overlapped in time with a mutating operation among "+
-			"them; (cap) a submission met the pool at capacity or was admitted while pool+pending exceeded it; distinct by JSON encoding of the case",
+			"them; (cap) a submission met pool+pending at the capacity; distinct by JSON encoding of the case",
 		genC37, runC37)
 }
